@@ -10,9 +10,6 @@ Proof. vm_compute. discriminate. Qed.
 Lemma failed_code st a b c : o_code (failed st a b c) <> 0.
 Proof. exact main_exit_code_nonzero. Qed.
 
-Lemma crashed_code st : o_code (crashed st) <> 0.
-Proof. vm_compute. discriminate. Qed.
-
 Lemma passed_code a b c : o_code (passed a b c) = 0.
 Proof. reflexivity. Qed.
 
@@ -28,7 +25,6 @@ Proof.
   destruct (li_find_ok i); cbn [negb]; [|split; [apply failed_code|reflexivity]].
   destruct (li_generate_ok i); cbn [negb]; [|split; [apply failed_code|reflexivity]].
   destruct (li_check_ok i); cbn [negb]; [|split; [apply failed_code|reflexivity]].
-  destruct (li_require_owner i && li_unowned_broken_rule i); [split; [apply crashed_code|reflexivity]|].
   destruct (parse_severity (flag_value "lint" "min-severity" (li_min_sev i))); [|split; [apply failed_code|reflexivity]].
   destruct (parse_severity (flag_value "lint" "fail-on" (li_fail_on i))); [|split; [apply failed_code|reflexivity]].
   destruct (li_outputs_ok i); cbn [negb]; [|split; [apply failed_code|reflexivity]].
@@ -38,7 +34,6 @@ Qed.
 
 (** an invalid severity flag: linting ran, nothing was reported, non-zero exit *)
 Lemma lint_invalid_flag i sevs :
-  lint_crashes i = false ->
   lint_infra_ok i = true ->
   parse_severity (flag_value "lint" "min-severity" (li_min_sev i)) = None \/
   parse_severity (flag_value "lint" "fail-on" (li_fail_on i)) = None ->
@@ -46,11 +41,11 @@ Lemma lint_invalid_flag i sevs :
   o_code o <> 0 /\ o_linted o = true /\ o_outputs_created o = false /\ o_submitted o = false /\
   (o_stage o = Some SMinSeverity \/ o_stage o = Some SFailOn).
 Proof.
-  unfold lint_crashes, lint_infra_ok, action_lint. intros Hcr H Hp.
+  unfold lint_infra_ok, action_lint. intros H Hp.
   rewrite !andb_true_iff in H. destruct H as [[[[[[Hs Hpa] Hfi] Hge] Hch] Hou] Hsu].
   rewrite Hs. cbn [negb].
   destruct (Nat.eqb (li_paths i) 0); [discriminate|].
-  rewrite Hfi, Hge, Hch, Hcr. cbn [negb].
+  rewrite Hfi, Hge, Hch. cbn [negb].
   destruct (parse_severity (flag_value "lint" "min-severity" (li_min_sev i))) as [m|].
   - destruct Hp as [Hp|Hp]; [discriminate|]. rewrite Hp. cbn.
     split; [apply main_exit_code_nonzero|]. repeat split; auto.
@@ -59,7 +54,6 @@ Qed.
 
 (** everything else went well and the flags parse: the exit status is the threshold decision *)
 Lemma lint_completed i sevs m f :
-  lint_crashes i = false ->
   lint_infra_ok i = true ->
   parse_severity (flag_value "lint" "min-severity" (li_min_sev i)) = Some m ->
   parse_severity (flag_value "lint" "fail-on" (li_fail_on i)) = Some f ->
@@ -67,26 +61,16 @@ Lemma lint_completed i sevs m f :
   (o_code o <> 0 <-> exists s, In s sevs /\ f <= s) /\
   o_linted o = true /\ o_submitted o = true.
 Proof.
-  unfold lint_crashes, lint_infra_ok, action_lint. intros Hcr H Hm Hf.
+  unfold lint_infra_ok, action_lint. intros H Hm Hf.
   rewrite !andb_true_iff in H. destruct H as [[[[[[Hs Hpa] Hfi] Hge] Hch] Hou] Hsu].
   rewrite Hs. cbn [negb].
   destruct (Nat.eqb (li_paths i) 0); [discriminate|].
-  rewrite Hfi, Hge, Hch, Hcr, Hm, Hf, Hou, Hsu. cbn [negb].
+  rewrite Hfi, Hge, Hch, Hm, Hf, Hou, Hsu. cbn [negb].
   destruct (exit_lint f m sevs) eqn:E.
   - split; [|split; reflexivity]. split; [intros _; apply exit_lint_iff in E; exact E | intros _; apply failed_code].
   - split; [|split; reflexivity]. split.
     + intro Hc. exfalso. apply Hc. reflexivity.
     + intro Hex. apply (exit_lint_iff f m sevs) in Hex. rewrite Hex in E. discriminate.
-Qed.
-
-(** the nil dereference of verifyOwners: every earlier stage went well, --require-owner, a rule that failed to parse
-    without an allowed owner => exit status 2, whatever was (not) found *)
-Lemma lint_crash i sevs :
-  action_setup (li_setup i) = true -> li_paths i <> 0%nat -> li_find_ok i = true -> li_generate_ok i = true ->
-  li_check_ok i = true -> lint_crashes i = true -> action_lint i sevs = crashed SOwners.
-Proof.
-  unfold lint_crashes, action_lint. intros Hs Hp Hf Hg Hc Hcr. rewrite Hs, Hf, Hg, Hc, Hcr. cbn [negb].
-  destruct (Nat.eqb (li_paths i) 0) eqn:E; [apply Nat.eqb_eq in E; contradiction|reflexivity].
 Qed.
 
 (** * pint ci *)
@@ -111,7 +95,6 @@ Proof.
   destruct (ci_git_find_ok i); cbn [negb]; [|split; [apply failed_code|reflexivity]].
   destruct (ci_generate_ok i); cbn [negb]; [|split; [apply failed_code|reflexivity]].
   destruct (ci_check_ok i); cbn [negb]; [|split; [apply failed_code|reflexivity]].
-  destruct (ci_require_owner i && ci_unowned_broken_rule i); [split; [apply crashed_code|reflexivity]|].
   destruct (ci_outputs_ok i); cbn [negb]; [|split; [apply failed_code|reflexivity]].
   destruct (ci_reporters_ok i); cbn [negb]; [|split; [apply failed_code|reflexivity]].
   destruct (parse_severity (flag_value "ci" "fail-on" (ci_fail_on i))); [|split; [apply failed_code|reflexivity]].
@@ -120,31 +103,29 @@ Proof.
 Qed.
 
 Lemma ci_invalid_fail_on i sevs :
-  ci_crashes i = false ->
   ci_on_base i = false -> ci_infra_ok i = true ->
   parse_severity (flag_value "ci" "fail-on" (ci_fail_on i)) = None ->
   action_ci i sevs = failed SFailOn true true false.
 Proof.
-  unfold ci_crashes, ci_on_base, ci_infra_ok, action_ci. intros Hcr Hb H Hp.
+  unfold ci_on_base, ci_infra_ok, action_ci. intros Hb H Hp.
   rewrite !andb_true_iff in H. destruct H as [[[[[[[[Hs Hbr] Hfi] Hgf] Hge] Hch] Hou] Hre] Hsu].
   rewrite Hs. cbn [negb].
   destruct (ci_current_branch i) as [cur|]; [|discriminate].
-  rewrite Hb, Hfi, Hgf, Hge, Hch, Hcr, Hou, Hre, Hp. reflexivity.
+  rewrite Hb, Hfi, Hgf, Hge, Hch, Hou, Hre, Hp. reflexivity.
 Qed.
 
 Lemma ci_completed i sevs f :
-  ci_crashes i = false ->
   ci_on_base i = false -> ci_infra_ok i = true ->
   parse_severity (flag_value "ci" "fail-on" (ci_fail_on i)) = Some f ->
   let o := action_ci i sevs in
   (o_code o <> 0 <-> exists s, In s sevs /\ f <= s) /\
   o_linted o = true /\ o_submitted o = true.
 Proof.
-  unfold ci_crashes, ci_on_base, ci_infra_ok, action_ci. intros Hcr Hb H Hp.
+  unfold ci_on_base, ci_infra_ok, action_ci. intros Hb H Hp.
   rewrite !andb_true_iff in H. destruct H as [[[[[[[[Hs Hbr] Hfi] Hgf] Hge] Hch] Hou] Hre] Hsu].
   rewrite Hs. cbn [negb].
   destruct (ci_current_branch i) as [cur|]; [|discriminate].
-  rewrite Hb, Hfi, Hgf, Hge, Hch, Hcr, Hou, Hre, Hp, Hsu. cbn [negb].
+  rewrite Hb, Hfi, Hgf, Hge, Hch, Hou, Hre, Hp, Hsu. cbn [negb].
   destruct (exit_ci f sevs) eqn:E.
   - split; [|split; reflexivity]. split; [intros _; apply exit_ci_iff in E; exact E | intros _; apply failed_code].
   - split; [|split; reflexivity]. split.
@@ -194,3 +175,6 @@ Lemma exit_paths_of_the_source :
   main_exit_code = 1 /\
   count_by_severity_shape = "every-report-counts-once-under-its-own-severity"%string.
 Proof. vm_compute. repeat split. Qed.
+
+Lemma stage_order_of_the_source : lint_order_ok lint_stage_seq = true /\ ci_order_ok ci_stage_seq = true.
+Proof. vm_compute. split; reflexivity. Qed.
